@@ -304,6 +304,59 @@ theorem step_wf (s : Seg) (op : Op) (h : WF s) : WF (step s op) ∧ (step s op).
   | reset =>
     have hb := wf_prev_le h.1
     exact ⟨⟨hb, Nat.zero_le _⟩, rfl⟩
+  | allocw est tot =>
+    simp only [step, allocateAndWrite]
+    by_cases hc : canFit s est = true
+    · simp only [hc, if_true]
+      cases ha : allocate s tot with
+      | none => exact ⟨h, rfl⟩
+      | some r =>
+        obtain ⟨o, s'⟩ := r
+        have := alloc_preserves_wf s tot o s' h ha
+        exact ⟨this.1, this.2.1⟩
+    · simp only [hc]
+      exact ⟨h, rfl⟩
+
+/-- The capacity pre-check agrees with the allocator: `canFit` is true exactly when an
+allocation of that size would succeed. -/
+theorem fitScan_iff {sz dataEnd : Nat} : ∀ (p : Nat) (t : Table),
+    fitScan sz dataEnd p t = true ↔ (allocScan sz dataEnd p t).isSome
+  | p, [] => by
+    simp only [fitScan, allocScan]
+    by_cases h : dataEnd - p ≥ sz <;> simp [h]
+  | p, e :: rest => by
+    have ih := fitScan_iff (sz := sz) (dataEnd := dataEnd) (e.1 + e.2) rest
+    simp only [fitScan, allocScan]
+    by_cases h : e.1 - p ≥ sz
+    · simp [h]
+    · simp only [h, if_false]
+      rw [ih]
+      cases allocScan sz dataEnd (e.1 + e.2) rest with
+      | none => simp
+      | some r => simp
+
+theorem canFit_iff_allocate (s : Seg) (n : Int) : canFit s n = true ↔ (allocate s n).isSome := by
+  unfold canFit allocate
+  by_cases h1 : n ≤ 0
+  · simp [h1]
+  · by_cases h2 : s.table.length ≥ maxAllocs
+    · simp [h1, h2]
+    · simp only [h1, h2, if_false]
+      rw [fitScan_iff]
+      cases allocScan n.toNat s.size headerSize s.table with
+      | none => simp
+      | some r => simp
+
+/-- A write-batch allocation that succeeds allocated exactly `total` bytes first-fit; it can only
+fail if the estimate does not fit or `total` does not fit. -/
+theorem allocateAndWrite_spec (s : Seg) (est tot : Int) :
+    allocateAndWrite s est tot = if (allocate s est).isSome then allocate s tot else none := by
+  unfold allocateAndWrite
+  by_cases h : canFit s est = true
+  · have := (canFit_iff_allocate s est).1 h
+    simp [h, this]
+  · have : ¬ (allocate s est).isSome = true := fun hh => h ((canFit_iff_allocate s est).2 hh)
+    simp [h, this]
 
 theorem create_wf (dataSize : Nat) : WF (create dataSize) := by
   simp [WF, WFfrom, create]
